@@ -686,7 +686,8 @@ def model_meta_lemma(R, prop, tier, lemma, rel, over):
     every pair of the bounded scope inside one TLC invariant.  A counterexample is replayed into the real code as a pair.
     """
     cfgs = [model.STATUTORY_CFG['wigm-prf'], model.STATUTORY_CFG['scotland'], model.STATUTORY_CFG['cfer-batch'], model.STATUTORY_CFG['mpls'],
-            model.cfgrec('meek', p=3, omega10=2, batch='safe'), model.cfgrec('qpq', kind='guarded', p=3, g=2)]
+            model.cfgrec('meek', p=3, omega10=2, batch='safe'), model.cfgrec('qpq', kind='guarded', p=3, g=2),
+            model.cfgrec('wigm', p=2, batch='zero')]
     if tier == 'thorough':
         cfgs = model_configs()
     sc = dict(nc=3, maxb=3 if tier == 'quick' else 4, maxm=2, seatset=(1, 2), ties=[(1, 2, 3), (3, 1, 2)])
@@ -829,14 +830,14 @@ def main_options_stage(R, tier):
     R.stage('Droop.main report header vs option layers', runs=n)
 
 
-OPT_CFG = ('INIT Init\nNEXT Next\nINVARIANT StatutoryImmune\nINVARIANT Precedence\nINVARIANT Reported\nINVARIANT Exported\nCONSTANTS\n'
-           ' RULESET = {%s}\n MAXACTIVE = %d\n EXPORT = %d\n')
+OPT_CFG = ('INIT Init\nNEXT Next\nINVARIANT StatutoryImmune\nINVARIANT Precedence\nINVARIANT Reported\nINVARIANT RuleChosen\nINVARIANT Exported\nCONSTANTS\n'
+           ' RULESET = {%s}\n MAXACTIVE = %d\n VARMAX = %d\n EXPORT = %d\n')
 
 
 def options_stage(R, prop, tier):
     "(M) the option lattice of Options.tla, all rules; (S->C) exported cases replayed into Election.__init__"
     rules = ', '.join('"%s"' % r for r in drive.RULES)
-    res = vlib.tlc('Options', OPT_CFG % (rules, 2, 3 if tier == 'quick' else 1), workers=8, heap_mb=3072, timeout=1500)
+    res = vlib.tlc('Options', OPT_CFG % (rules, 2, 1 if tier == 'quick' else 2, 3 if tier == 'quick' else 1), workers=8, heap_mb=3072, timeout=1500)
     R.add_tlc(res)
     viol = re.search(r'Invariant (\w+) is violated', res['out'])
     R.stage('model-check Options.tla', distinct_states=res['distinct'], wall_s=round(res['wall'], 1), invariant_violated=viol.group(1) if viol else None)
@@ -854,7 +855,7 @@ def options_stage(R, prop, tier):
         R.cov['evaluations'] += 1
         if diffs:
             nd += 1
-            R.violation('C17: rule %s cmd=%s file=%s: %s expected %s, observed %s' % (case['rule'], case['cmd'], case['file'], diffs[0][0], diffs[0][1], diffs[0][2]),
+            R.violation('C17: rule %s cmd=%s file=%s preset defaults=%s: %s expected %s, observed %s' % (case['rule'], case['cmd'], case['file'], case.get('pre'), diffs[0][0], diffs[0][1], diffs[0][2]),
                         dict(blt=blt_, options=cmd, differences=diffs, case=case))
     R.stage('spec->code replay of option cases', cases=len(cases), differences=nd)
     R.cov['distinct_nontrivial'] += len(cases)
@@ -917,8 +918,15 @@ def check_c20(tier):
             items.append((dict(rel='C20', a=a, b=b, map=list(range(1, a['nc'] + 1)), obs=o, unit=0), info))
     # the same PROFILE OBJECT counted again in fresh Election objects (also under another rule in between)
     nshared = 0
-    for (o, lp) in history.TARGET_CONFIGS + [({'rule': 'meek', 'arithmetic': 'fixed', 'precision': 4}, None), ({'rule': 'warren', 'arithmetic': 'fixed', 'precision': 3}, None)]:
-        for b in ([history.EQ_BLT] if o['rule'] in ('meek', 'warren') else []) + [history.BLTS[0]]:
+    # ... including files that embed counting options ([droop ...]): the file layer must be there for the second election too
+    DROOP_BLT = history.BLTS[0].replace('4 2 [tie', '4 2 [droop arithmetic=fixed precision=3 defeat_batch=zero] [tie')
+    DROOP_BLT2 = history.BLTS[2].replace('5 3 [tie', '5 3 [droop precision=2 omega=1 defeat_batch=none display=1] [tie')
+    assert DROOP_BLT != history.BLTS[0] and DROOP_BLT2 != history.BLTS[2]
+    shared = [(o, lp, ([history.EQ_BLT] if o['rule'] in ('meek', 'warren') else []) + [history.BLTS[0]]) for (o, lp) in
+              history.TARGET_CONFIGS + [({'rule': 'meek', 'arithmetic': 'fixed', 'precision': 4}, None), ({'rule': 'warren', 'arithmetic': 'fixed', 'precision': 3}, None)]]
+    shared += [({'rule': 'wigm'}, None, [DROOP_BLT, DROOP_BLT2]), ({'rule': 'meek', 'arithmetic': 'fixed'}, None, [DROOP_BLT2]), ({'rule': 'scotland'}, None, [DROOP_BLT])]
+    for (o, lp, blts_) in shared:
+        for b in blts_:
             prof = drive.ElectionProfile(data=b)
             first = fresh.outputs(b, o, lp, profile=prof)
             other = ({'rule': 'warren', 'arithmetic': 'fixed', 'precision': 3}, None) if o['rule'] == 'meek' else ({'rule': 'meek', 'arithmetic': 'fixed', 'precision': 3}, None)
@@ -1010,10 +1018,17 @@ def check_c19(tier):
     per_rule = collections.Counter()
     for pi, pr in enumerate(profiles):
         blt = drive.mkblt(**pr)
+        todo = []
         for rule in drive.RULES:
             opts, lp = gen.configs(rule, rng)[0]
             if opts.get('arithmetic') == 'rational':
                 opts, lp = dict(rule=rule, arithmetic='fixed', precision=3), None
+            todo.append((rule, opts, lp))
+        if pi == len(profiles) - 1:
+            # the iterative rules with their default (quasi-exact) arithmetic and with exact arithmetic: the progress-output path
+            todo += [('meek', dict(rule='meek'), None), ('warren', dict(rule='warren', arithmetic='guarded', precision=4, guard=3), None),
+                     ('meek', dict(rule='meek', arithmetic='rational', omega=2), None)]
+        for rule, opts, lp in todo:
             try:
                 K, full, fulljson = interrupt.full_run(blt, opts, lp)
             except Exception as e:
@@ -1022,8 +1037,13 @@ def check_c19(tier):
                 first = next((i for i, a in enumerate(full) if a[0] != 'log'), 0)
                 ks = set(range(1, min(K, 200) + 1, 1 if pi == len(profiles) - 1 else 3))
                 ks |= set(rng.sample(range(1, K + 1), min(K, 60)))
+                if pi == len(profiles) - 1:
+                    # every distinct executed line of package code is an interruption point at least once (first and last visit)
+                    kl, nl = interrupt.per_line_events(2)
+                    ks |= kl
+                    R.cov['distinct_code_lines_interrupted'] = R.cov.get('distinct_code_lines_interrupted', 0) + nl
             else:
-                ks = set(range(1, K + 1)) if K <= 6000 else set(range(1, 400)) | set(rng.sample(range(1, K + 1), 3000))
+                ks = set(range(1, K + 1)) if K <= 6000 else set(range(1, 400)) | set(rng.sample(range(1, K + 1), 3000)) | interrupt.per_line_events(3)[0]
             for k in sorted(ks):
                 X = interrupt.crash_record(blt, opts, k, full, fulljson, lp)
                 R.cov['evaluations'] += 1
@@ -1044,10 +1064,10 @@ def check_c19(tier):
         blt0 = drive.mkblt(**profiles[-1])
         with os.fdopen(fd, 'w') as fh:
             fh.write(blt0)
-        for rule in drive.RULES:
-            opts = dict(rule=rule)
-            if rule in ('wigm', 'meek', 'warren'):
-                opts.update(arithmetic='fixed', precision=3)
+        main_cfgs = [dict(rule=rule, arithmetic='fixed', precision=3) if rule in ('wigm', 'meek', 'warren') else dict(rule=rule) for rule in drive.RULES]
+        main_cfgs += [dict(rule='meek'), dict(rule='warren')]     # the default quasi-exact arithmetic: the progress-output path
+        for opts in main_cfgs:
+            rule = opts['rule']
             K, full, fulljson = interrupt.full_run(blt0, opts, None)
             ks = sorted(set(range(1, 60, 4)) | set(rng.sample(range(1, K + 1), min(K, 12 if tier == 'quick' else 150))))
             for k in ks:
